@@ -66,12 +66,12 @@ def call(ex, f, e):
             ex.eng._cur_ex = ex
             for (pn, kd), a in zip(c.params, args):
                 # re-wrap through the declared kind so static type information is kept
-                sub.env[pn] = a if kd == 'set' else ex.eng.wrap_kind(ex.eng.unwrap_kind(a, kd), kd)
+                sub.env[pn] = a if kd in ('set', 'dict') else ex.eng.wrap_kind(ex.eng.unwrap_kind(a, kd), kd)
             body = [st for st in c.fn.body if not (isinstance(st, ast.Expr) and isinstance(st.value, ast.Constant))]
             r = sub.merge_block(body)
             return ex.eng.wrap_kind(ex.eng.unwrap_kind(r, retk), retk)
         ex.eng._cur_ex = ex
-        zs = [ex.eng.unwrap_kind(a, kd) for a, kd in zip(args, kinds)]
+        zs = [z for a, kd in zip(args, kinds) for z in ex.eng.unwrap_kinds(a, kd)]
         return ex.eng.wrap_kind(fn(*zs), retk)
     if k == 'bound':
         return call_method(ex, f.obj, f.name, e)
@@ -677,6 +677,13 @@ def bi_dict_get(ex, e):
     return V(z3.Select(d.val, k))
 
 
+def bi_dict_values_str(ex, e):
+    """every value of the dict is a string"""
+    d = ex.ev(e.args[0])
+    k = fresh('k', Val)
+    return mk_bool(z3.ForAll([k], z3.Implies(z3.Select(d.dom, k), is_str(z3.Select(d.val, k)))))
+
+
 def bi_dict_keys(ex, e):
     d = ex.ev(e.args[0])
     if d.keys is None:
@@ -795,6 +802,10 @@ def str_method(ex, s, name, e):
             ex.assume(z3.Not(z3.InRe(r, z3.Concat(z3.Full(z3.ReSort(vl.String)), ws))))
             return V(VStr(r))
         raise Unsupported('str.%s()' % name)
+    if name == 'replace' and len(args) == 2:
+        a, b = sarg(0), sarg(1)
+        ex.safe(z3.Length(a) > 0, 'Unsupported', 'replace of a non-empty needle', e)
+        return V(VStr(z3.SeqRef(z3.Z3_mk_seq_replace_all(s.ctx.ref(), s.as_ast(), a.as_ast(), b.as_ast()), s.ctx)))
     if name == 'lower':
         return V(VStr(z3.Function('str_lower', vl.String, vl.String)(s)))
     if name == 'isalpha':
